@@ -4,6 +4,12 @@ import count_driver as cd
 ORACLES = ['c05']
 def tweak(rng, e, o):
     e['eq'] = []
+    # the directed families under the Meek rules: half of them with the arithmetic's default omega (no omega option), at
+    # precisions where omega is far below one vote
+    if e.get('family') == 'directed' and o['rule'] in ('meek', 'warren') and rng.random() < 0.5:
+        keep = dict(rule=o['rule'], arithmetic=rng.choice(['fixed', 'fixed', 'guarded']))
+        if rng.random() < 0.5: keep['precision'] = rng.choice([6, 9, 12])
+        o.clear(); o.update(keep)
 def sig_extra(blt, o, r, v): return {}
 def run(chk, ctx):
     chk.cov['rule'] = ("random strict-ranking elections (weighted to solid coalitions barely above k quotas with a strong member holding a pending surplus, and to the batch-defeat rules) (<= 9 eligible candidates) x all rules x arithmetics; for EVERY candidate subset S and every k the "
